@@ -7,7 +7,7 @@ from ..gen import G, Qty
 from ..common import run_apps, app, out_of, sig
 from ..core import unhx
 
-THEOREMS = ['csv_roundtrip', 'csv_log_rows', 'csv_db_rows', 'csv_dates_iso', 'csv_resolved_sorted', 'csv_resolved_perm', 'amount_within_half_ulp', 'amount_fixed_precision']
+THEOREMS = ['csv_roundtrip', 'csv_log_rows', 'csv_db_rows', 'csv_dates_iso', 'csv_resolved_sorted', 'csv_resolved_perm', 'amount_within_half_ulp', 'amount_fixed_precision', 'amount_reads_back']
 LEVEL = 'proof'
 RULE = ('logs and books whose names range over letters of several scripts, digits, blanks, "/", commas, double quotes, CR and other punctuation; quantities '
         'negative, tiny, large and on rounding boundaries; recipe books with a repeated heading; each export is read back with an independent RFC 4180 reader (Python csv) and compared with the '
